@@ -49,7 +49,7 @@ def hostile_rule(rng):
         p.append("BYWEEKNO=" + some(1, 53, 20 if big else 3, neg=True, zero=True))
     if pick() < 0.5:
         days = []
-        for _ in range(rng.randint(1, 7 if big else 3)):
+        for _ in range(rng.randint(1, 40 if big else 3)):        # more than the 14 natively stored values of a bitint447
             o = rng.choice(["", "", "1", "-1", "5", "-5", "53", "-53", "54", "0", str(rng.randint(-60, 60))])
             days.append(o + rng.choice(rfc5545.WD + ["XX"]))
         p.append("BYDAY=" + ",".join(days))
@@ -60,9 +60,9 @@ def hostile_rule(rng):
     if pick() < 0.4:
         p.append("BYSECOND=" + (",".join(map(str, range(0, 62))) if big else some(0, 61, 4)))
     if pick() < 0.3:
-        p.append("BYSETPOS=" + some(1, 366, 6, neg=True, zero=True))
+        p.append("BYSETPOS=" + some(1, 366, 30 if big else 6, neg=True, zero=True))     # bitint383: 12 native slots
     if pick() < 0.2:
-        p.append("BYEASTER=" + some(0, 366, 4, neg=True))
+        p.append("BYEASTER=" + some(0, 366, 30 if big else 4, neg=True))
     if pick() < 0.25:
         p.append("SHIFT=" + rng.choice(["1", "-366", "366", "32767", "-32768", "1B", "-0B", "9999B", "-9999B-", "3,4B+", "B", "1,2,3", "x"]))
     if pick() < 0.1:
